@@ -144,3 +144,44 @@ pub fn deserialize_indexmap_nested<
     }
     Ok(result)
 }
+
+/// Deserialize a bulletproofs range proof from its byte encoding.
+///
+/// `bulletproofs::RangeProof::from_bytes` unwraps the decoding of the inner-product
+/// proof's `L` and `R` points and panics when one of them is not a valid compressed
+/// point, so those are checked here first; everything else it rejects with an error.
+pub fn deserialize_range_proof<'de, D: Deserializer<'de>>(
+    d: D,
+) -> Result<bulletproofs::RangeProof, D::Error> {
+    struct RangeProofVisitor;
+
+    impl<'de> Visitor<'de> for RangeProofVisitor {
+        type Value = bulletproofs::RangeProof;
+
+        fn expecting(&self, formatter: &mut Formatter) -> fmt::Result {
+            write!(formatter, "a valid range proof")
+        }
+
+        fn visit_bytes<E>(self, v: &[u8]) -> Result<Self::Value, E>
+        where
+            E: serde::de::Error,
+        {
+            // A, S, T_1, T_2, three scalars, then the inner-product proof's a and b
+            const POINTS_OFFSET: usize = 4 * 48 + 5 * 32;
+            if let Some(points) = v.get(POINTS_OFFSET..) {
+                for chunk in points.chunks_exact(48) {
+                    let bytes = <[u8; 48]>::try_from(chunk)
+                        .map_err(|_| serde::de::Error::custom("invalid range proof"))?;
+                    if bool::from(blsful::inner_types::G1Affine::from_compressed(&bytes).is_none())
+                    {
+                        return Err(serde::de::Error::custom("invalid range proof"));
+                    }
+                }
+            }
+            bulletproofs::RangeProof::from_bytes(v)
+                .map_err(|_| serde::de::Error::custom("invalid range proof"))
+        }
+    }
+
+    d.deserialize_bytes(RangeProofVisitor)
+}
